@@ -3207,8 +3207,14 @@ func (s *swamp) treasuresForBeacon(bc BeaconType) map[string]treasure.Treasure {
 
 func (s *swamp) buildBeacon(beaconASC beacon.Beacon, beaconDESC beacon.Beacon, bc BeaconType) {
 
-	// build the index only if it is not initialized
-	if beaconASC.IsInitialized() && beaconDESC.IsInitialized() {
+	// build the index only if it is not initialized. The check waits for a build in
+	// flight (read lock): the builder marks a half initialised BEFORE it has filled and
+	// sorted it, so an unlocked check would let a concurrent reader / claim walk the
+	// half-built index (records missing or out of index order).
+	s.indexBuildMu.RLock()
+	built := beaconASC.IsInitialized() && beaconDESC.IsInitialized()
+	s.indexBuildMu.RUnlock()
+	if built {
 		return
 	}
 
